@@ -103,6 +103,7 @@ func propGen(prop, tier string, idx int) GenOpts {
 		o.PInstance, o.PReuseType = 150, 300
 		o.NoMultiOpts, o.NoResultGroup = false, false
 		o.PResultGroup = 300
+		o.PIntKeyProbe = 500
 		conc(1, 1)
 		o.WOp = [8]int{0, 12, 6, 2, 0, 0, 0, 0}
 		o.MaxOps = 10
@@ -136,6 +137,7 @@ func propGen(prop, tier string, idx int) GenOpts {
 		o.MaxOps = 4
 		o.PGroupDep, o.PGroup, o.PParamObj, o.PAs, o.PName = 500, 300, 600, 300, 250
 	case "C08":
+		o.TransientVoid = idx%2 == 1
 		o.PMissing = 400
 		o.POptionalMissing = 250
 		o.PVoid = 150
@@ -155,6 +157,9 @@ func propGen(prop, tier string, idx int) GenOpts {
 		o.SchedUserOnly = 400
 	case "C10":
 		o.PDisposable = 800
+		if idx%4 == 1 {
+			o.PSameObj, o.PMultiIface, o.PResultIface = 600, 500, 400
+		}
 		o.PMulti, o.PResult, o.PVoid = 150, 150, 220
 		conc(1, 3)
 		if seq {
@@ -182,6 +187,12 @@ func propGen(prop, tier string, idx int) GenOpts {
 			// the order must hold whatever Close methods fail
 			o.FaultBudget = [4]int{3, 4, 3, 1}
 			o.WFault = [4]int{0, 0, 0, 5}
+		}
+		if idx%8 == 3 {
+			// ... and whatever constructors fail: what a failed resolution leaves behind stays
+			// owned by the scope and is closed in its place of the order, not when the failure happens
+			o.WFault = [4]int{4, 1, 0, 2}
+			o.WLife = [3]int{2, 5, 5}
 		}
 	case "C12":
 		o.PDisposable = 900
@@ -524,6 +535,9 @@ func (e *containerEngine) reach(h *H, a *Analysis, out *RunOut) {
 		}
 	}
 	for _, inv := range h.invs {
+		if inv.SharedOuts > 0 {
+			r["one-object-under-two-outputs"]++
+		}
 		if inv.Fault != nil && len(inv.Args) > 0 {
 			for _, ar := range inv.Args {
 				if ar.Kind == ArgInst || ar.Kind == ArgSlice {
@@ -541,6 +555,9 @@ func (e *containerEngine) reach(h *H, a *Analysis, out *RunOut) {
 	for _, op := range a.ops {
 		if op.Done && op.Err != nil {
 			r["op-error."+errClassNames[op.Class]]++
+		}
+		if op.ViaRoot {
+			r["op-via-root-scope."+opNames[op.Op.Kind]]++
 		}
 	}
 }
